@@ -6,6 +6,7 @@ package openapi3gen
 // symbolic (e.g. an int8 field ranges over all 256 values).
 
 import (
+	"reflect"
 	"time"
 
 	"github.com/getkin/kin-openapi/openapi3"
@@ -429,6 +430,70 @@ func verifH_C18_value_and_pointer() {
 	}
 	if root.Value != nil {
 		verifAssert(root.Value.VisitJSON(enc) == nil, "C18 value and pointer: the generated schema accepts the encoding of the value (a nil pointer is null whatever else uses the struct type)")
+	}
+	verifReach("end")
+}
+
+type verifOptInner struct {
+	N int32 `json:"n"`
+}
+
+type verifOptOuter struct {
+	A    verifOptInner            `json:"a"`
+	P    *verifOptInner           `json:"p,omitempty"`
+	L    []verifOptInner          `json:"l"`
+	M    map[string]verifOptInner `json:"m"`
+	Self *verifOptOuter           `json:"self,omitempty"`
+	S    string                   `json:"s"`
+	Open string                   // no tag: part of the schema only with UseAllExportedFields
+}
+
+//verif:harness id=C18 tier=quick,thorough witness=end bounds="generator option sets: none / UseAllExportedFields / ThrowErrorOnCycle / a SchemaCustomizer that changes nothing / CreateComponentSchemas with each of its three flags / a TypeNameGenerator adding a prefix (with and without CreateComponentSchemas), on a struct with a nested struct by value, by pointer, in a slice and in a map, a self reference and an untagged field; the int32 leaf symbolic: generation succeeds (or reports the cycle when asked to), every $ref names a component, the encoding of a value validates"
+func verifH_C18_options() {
+	comps := openapi3.Schemas{}
+	var opts []Option
+	sel := verifChoose("options", 10)
+	switch sel {
+	case 1:
+		opts = append(opts, UseAllExportedFields())
+	case 2:
+		opts = append(opts, ThrowErrorOnCycle())
+	case 3:
+		opts = append(opts, SchemaCustomizer(func(name string, t reflect.Type, tag reflect.StructTag, schema *openapi3.Schema) error { return nil }))
+	case 4:
+		opts = append(opts, CreateComponentSchemas(ExportComponentSchemasOptions{ExportComponentSchemas: true}))
+	case 5:
+		opts = append(opts, CreateComponentSchemas(ExportComponentSchemasOptions{ExportComponentSchemas: true, ExportTopLevelSchema: true}))
+	case 6:
+		opts = append(opts, CreateComponentSchemas(ExportComponentSchemasOptions{ExportComponentSchemas: true, ExportGenerics: true}))
+	case 7:
+		opts = append(opts, CreateTypeNameGenerator(func(t reflect.Type) string { return "pre_" + t.Name() }))
+	case 8:
+		opts = append(opts, CreateTypeNameGenerator(func(t reflect.Type) string { return "pre_" + t.Name() }), CreateComponentSchemas(ExportComponentSchemasOptions{ExportComponentSchemas: true}))
+	case 9:
+		opts = append(opts, UseAllExportedFields(), CreateComponentSchemas(ExportComponentSchemasOptions{ExportComponentSchemas: true, ExportTopLevelSchema: true}))
+	}
+	ref, err := NewSchemaRefForValue(&verifOptOuter{}, comps, opts...)
+	if sel == 2 {
+		verifAssert(err != nil, "C18 options: ThrowErrorOnCycle reports the self reference")
+		verifReach("end")
+		return
+	}
+	verifAssert(err == nil && ref != nil, "C18 options: generation succeeds")
+	if err != nil || ref == nil {
+		return
+	}
+	root := &openapi3.SchemaRef{Ref: ref.Ref, Value: ref.Value}
+	verifAssert(verifResolveGen(root, comps, 0), "C18 options: every $ref in the generated schema names a component")
+	for _, c := range comps {
+		verifAssert(verifResolveGen(c, comps, 0), "C18 options: every $ref in a generated component names a component")
+	}
+	n := verifNondetInt32("n")
+	inner := map[string]any{"n": float64(n)}
+	enc := map[string]any{"a": inner, "p": inner, "l": []any{inner}, "m": map[string]any{"k": inner}, "s": "x", "Open": "o",
+		"self": map[string]any{"a": inner, "l": []any{}, "m": map[string]any{}, "s": "y", "Open": ""}}
+	if root.Value != nil {
+		verifAssert(root.Value.VisitJSON(enc) == nil, "C18 options: the generated schema accepts the encoding of a value")
 	}
 	verifReach("end")
 }
